@@ -88,7 +88,7 @@ def main():
     Frontend.full_analysis = wrapped
     out = []
     for t in job["tasks"]:
-        argv = ["--arch", job["arch"], "--lcd-timeout", "-1", "--ignore-unknown"]
+        argv = (["--arch", job["arch"]] if job.get("arch") else []) + ["--lcd-timeout", "-1", "--ignore-unknown"]
         if t.get("lines") is not None:
             argv += ["--lines", t["lines"]]
         argv.append(t["path"])
